@@ -182,21 +182,25 @@ def secondText (z : Zone) (seconds : Int) : Bytes :=
   let dt := zoneTime z seconds
   sprintf (parseFmt timeFormat) [dt.year, dt.month, dt.day, dt.hour, dt.minute, dt.second]
 
-/-- per-thread cache: `t_lastSecond`, `t_time` (zero-initialised thread-local storage) -/
+/-- per-thread cache: `t_lastSecond`, `t_lastZoneGen`, `t_time` (zero-initialised thread-local storage) -/
 structure TimeCache where
   lastSecond : Int
+  zoneGen : Int        -- `t_lastZoneGen`: the value of `g_logTimeZoneGen` the text was formatted under
   text : Bytes
 deriving Repr, DecidableEq
 
-def TimeCache.fresh : TimeCache := { lastSecond := 0, text := [] }
+def TimeCache.fresh : TimeCache := { lastSecond := 0, zoneGen := lastZoneGenInit, text := [] }
 
 /-- `T(p, n)`: exactly `n` bytes starting at `p` (zero bytes after the text: static storage) -/
 def readN (n : Nat) (s : Bytes) : Bytes := (s ++ List.replicate n 0).take n
 
-/-- the cache after `formatTime` looked at the instant -/
-def cacheStep (z : Zone) (c : TimeCache) (us : Int) : TimeCache :=
+/-- the cache after `formatTime` looked at the instant; `gen` is `g_logTimeZoneGen`, the number of
+`Logger::setTimeZone` calls so far -/
+def cacheStep (z : Zone) (gen : Int) (c : TimeCache) (us : Int) : TimeCache :=
   let seconds := splitSeconds us
-  if cacheMiss seconds c.lastSecond then { lastSecond := seconds, text := secondText z seconds } else c
+  if cacheMiss seconds c.lastSecond gen c.zoneGen then
+    { lastSecond := seconds, zoneGen := if cacheStoresGen then gen else c.zoneGen, text := secondText z seconds }
+  else c
 
 /-- the `Fmt us(".%06d ", microseconds)` text -/
 def usText (z : Zone) (us : Int) : Bytes :=
@@ -314,13 +318,13 @@ def implAsserts (z : Zone) : LineEnv → List ImplStep → Bool
      | .ins ps => decide (Piece.tid ∈ ps → tidAssert e.tid)
      | _ => true) && implAsserts z (implStep z e s).1 rest
 
-def lineEnv (z : Zone) (c : TimeCache) (t : TidState) (r : LogReq) : LineEnv :=
-  { timeText := (cacheStep z c r.us).text, usText := usText z r.us, tid := t, req := r }
+def lineEnv (z : Zone) (gen : Int) (c : TimeCache) (t : TidState) (r : LogReq) : LineEnv :=
+  { timeText := (cacheStep z gen c r.us).text, usText := usText z r.us, tid := t, req := r }
 
 /-- everything a Logger whose `Impl::Impl` consists of `steps` inserts: those statements, the `func` constructor's
 body, the caller's message, `finish` -/
-def lineItemsOf (steps : List ImplStep) (z : Zone) (c : TimeCache) (t : TidState) (r : LogReq) : List Item :=
-  let res := implRun z (lineEnv z c t r) steps
+def lineItemsOf (steps : List ImplStep) (z : Zone) (gen : Int) (c : TimeCache) (t : TidState) (r : LogReq) : List Item :=
+  let res := implRun z (lineEnv z gen c t r) steps
   res.2 ++ (if r.func.isSome then funcPieces else []).map (pieceItem res.1) ++ r.msg ++ finishPieces.map (pieceItem res.1)
 
 structure LineResult where
@@ -330,11 +334,11 @@ structure LineResult where
   text : Bytes           -- what `~Logger` hands to `g_output`
 deriving Repr, DecidableEq
 
-def logLineOf (steps : List ImplStep) (z : Zone) (c : TimeCache) (t : TidState) (r : LogReq) : LineResult :=
-  { cache := cacheStep z c r.us,
-    tid := (implRun z (lineEnv z c t r) steps).1.tid,
-    asserts := implAsserts z (lineEnv z c t r) steps,
-    text := (run (mkBuf kSmallBuffer) (lineItemsOf steps z c t r)).data }
+def logLineOf (steps : List ImplStep) (z : Zone) (gen : Int) (c : TimeCache) (t : TidState) (r : LogReq) : LineResult :=
+  { cache := cacheStep z gen c r.us,
+    tid := (implRun z (lineEnv z gen c t r) steps).1.tid,
+    asserts := implAsserts z (lineEnv z gen c t r) steps,
+    text := (run (mkBuf kSmallBuffer) (lineItemsOf steps z gen c t r)).data }
 
 /-- the code that exists: the statements of `Impl::Impl` as extracted -/
 def lineItems := lineItemsOf implSteps
@@ -352,25 +356,27 @@ inductive LogOp
 deriving Repr, DecidableEq
 
 structure LogState where
-  zone : Zone
-  cache : TimeCache
-  tid : TidState
-  filledZone : Zone      -- ghost: the zone that was configured when `cache.text` was written
+  zone : Zone            -- `g_logTimeZone`
+  gen : Int              -- `g_logTimeZoneGen`
+  cache : TimeCache      -- of the logging thread
+  tid : TidState         -- of the logging thread
 deriving Repr, DecidableEq
 
-/-- a thread (of any kind) before its first log statement -/
-def LogState.init (t : TidState) : LogState := { zone := none, cache := TimeCache.fresh, tid := t, filledZone := none }
+/-- process start, seen from a thread (of any kind) before its first log statement -/
+def LogState.init (t : TidState) : LogState := { zone := none, gen := zoneGenInit, cache := TimeCache.fresh, tid := t }
 
 def logStep (s : LogState) : LogOp → LogState × List Bytes
   | .log r =>
-    let miss : Bool := decide (cacheMiss (splitSeconds r.us) s.cache.lastSecond)
-    let res := logLine s.zone s.cache s.tid r
-    ({ s with cache := res.cache, tid := res.tid, filledZone := if miss then s.zone else s.filledZone }, [res.text])
-  | .setZone z => ({ s with zone := z }, [])
+    let res := logLine s.zone s.gen s.cache s.tid r
+    ({ s with cache := res.cache, tid := res.tid }, [res.text])
+  | .setZone z => ({ s with zone := z, gen := if zoneGenBumped then s.gen + 1 else s.gen }, [])
 
 def logRun : LogState → List LogOp → List Bytes
   | _, [] => []
   | s, op :: rest => (logStep s op).2 ++ logRun (logStep s op).1 rest
+
+/-- the state after a sequence of operations -/
+def logAfter (s : LogState) (ops : List LogOp) : LogState := ops.foldl (fun s op => (logStep s op).1) s
 
 /-! ### exact arithmetic of `formatSI` / `formatIEC` -/
 
